@@ -1,4 +1,5 @@
 import TLVerif.Acks.AcksBuildLemmas
+import TLVerif.Acks.AcksCanonLemmas
 /-!
 # C37 — UDP acknowledgement bookkeeping is exact
 
@@ -124,6 +125,64 @@ theorem buildNack_complete (p0 : Nat) (ops : List (Nat × Nat)) (hp : p0 ≤ 429
 theorem checkInvariants_silent (p0 : Nat) (ops : List (Nat × Nat)) (hp : p0 ≤ 4294967295) (hw : WrapFree ops) :
     checkInvariantsCommon (after p0 ops) = 0 :=
   checkInvariantsCommon_zero _ (invariant_after_history p0 ops hp hw)
+
+/-! ### Exactness beyond the statement: the state is a function of the recorded set -/
+
+/-- The representation is canonical: two histories that record the same numbers end in the *same* state
+(same prefix, same ranges), whatever the order, batching or duplication of the recorded ranges. -/
+theorem state_determined_by_set (p0 p0' : Nat) (ops ops' : List (Nat × Nat)) (hp : p0 ≤ 4294967295) (hp' : p0' ≤ 4294967295)
+    (hw : WrapFree ops) (hw' : WrapFree ops') (h : ∀ n, recorded p0 ops n ↔ recorded p0' ops' n) :
+    after p0 ops = after p0' ops' :=
+  state_unique _ _ (invariant_after_history p0 ops hp hw) (invariant_after_history p0' ops' hp' hw') (fun n => by
+    rw [set_eq_union p0 ops hp hw n, set_eq_union p0' ops' hp' hw' n]; exact h n)
+
+/-- Reordered arrival (any permutation of the history) gives the same state, hence the same headers. -/
+theorem order_irrelevant (p0 : Nat) (ops ops' : List (Nat × Nat)) (hp : p0 ≤ 4294967295) (hw : WrapFree ops)
+    (hperm : ops.Perm ops') : after p0 ops = after p0 ops' := by
+  have hw' : WrapFree ops' := fun op ho => hw op (hperm.mem_iff.mpr ho)
+  refine state_determined_by_set p0 p0 ops ops' hp hp hw hw' (fun n => ?_)
+  unfold recorded inOps
+  constructor
+  · rintro (h | ⟨op, ho, hn⟩)
+    · exact Or.inl h
+    · exact Or.inr ⟨op, hperm.mem_iff.mp ho, hn⟩
+  · rintro (h | ⟨op, ho, hn⟩)
+    · exact Or.inl h
+    · exact Or.inr ⟨op, hperm.mem_iff.mpr ho, hn⟩
+
+/-- Recording a range again (a retransmitted packet) changes nothing. -/
+theorem duplicate_irrelevant (p0 : Nat) (ops : List (Nat × Nat)) (op : Nat × Nat) (hp : p0 ≤ 4294967295) (hw : WrapFree ops)
+    (hin : op ∈ ops) : after p0 (ops ++ [op]) = after p0 ops := by
+  have hw' : WrapFree (ops ++ [op]) := by
+    intro o ho
+    rcases List.mem_append.mp ho with h | h
+    · exact hw o h
+    · simp only [List.mem_singleton] at h; subst h; exact hw o hin
+  refine state_determined_by_set p0 p0 _ _ hp hp hw' hw (fun n => ?_)
+  unfold recorded inOps
+  constructor
+  · rintro (h | ⟨o, ho, hn⟩)
+    · exact Or.inl h
+    · rcases List.mem_append.mp ho with h | h
+      · exact Or.inr ⟨o, h, hn⟩
+      · simp only [List.mem_singleton] at h; subst h; exact Or.inr ⟨o, hin, hn⟩
+  · rintro (h | ⟨o, ho, hn⟩)
+    · exact Or.inl h
+    · exact Or.inr ⟨o, List.mem_append.mpr (Or.inl ho), hn⟩
+
+/-- The acknowledged prefix never moves backwards (no guard needed). -/
+theorem prefix_monotone (a : AcksToSend) (ops : List (Nat × Nat)) : a.ackPrefix ≤ (run a ops).ackPrefix :=
+  run_prefix_mono ops a
+
+/-- `HaveHoles` is exact: it is true iff some unrecorded number lies below a recorded one. -/
+theorem haveHoles_exact (p0 : Nat) (ops : List (Nat × Nat)) (hp : p0 ≤ 4294967295) (hw : WrapFree ops) :
+    haveHoles (after p0 ops) = true ↔ ∃ n m, n < m ∧ ¬ recorded p0 ops n ∧ recorded p0 ops m := by
+  rw [haveHoles_iff _ (invariant_after_history p0 ops hp hw)]
+  constructor
+  · rintro ⟨n, m, h1, h2, h3⟩
+    exact ⟨n, m, h1, fun h => h2 ((set_eq_union p0 ops hp hw n).mpr h), (set_eq_union p0 ops hp hw m).mp h3⟩
+  · rintro ⟨n, m, h1, h2, h3⟩
+    exact ⟨n, m, h1, fun h => h2 ((set_eq_union p0 ops hp hw n).mp h), (set_eq_union p0 ops hp hw m).mpr h3⟩
 
 /-! ### The guard is tight, and satisfiable -/
 
